@@ -250,7 +250,7 @@ def mk_steps_record(tag, rows, rs):
 class CompiledWorld:
     """nodes a (2 slots, generations 0 and 1) -> sup (supervisor, last generation); a has no inputs, sup reads a."""
 
-    def __init__(self, ctx, record, rs, extra=None, pfx=""):
+    def __init__(self, ctx, record, rs, extra=None, pfx="", consumer=False):
         """extra: name of one more input-less node (one slot `<extra>_0` in generation 0), e.g. a node whose name extends another node's name"""
         ex = ctx.ex
         self.ctr = StepCounter()
@@ -270,6 +270,13 @@ class CompiledWorld:
         if extra:
             self.nodes[extra] = Rec("BaseNode", dict(name=extra, rate=z3.Real(f"{extra}.rate"), inputs={}, outputs={}, step=self.ctr.make(extra)), module=None)
             self.slots[f"{pfx}{extra}_0"] = slot(f"{extra}_0", extra, 0)
+        if consumer:      # node b reads a and sits in the SAME generation as a's first slot
+            b = Rec("BaseNode", dict(name="b", rate=z3.Real("b.rate"), inputs={}, outputs={}, step=self.ctr.make("b")), module=None)
+            b.f["inputs"]["a_in"] = Rec("Connection", dict(output_node=a, input_node=b, input_name="a_in", delay_dist=dd()), module=None)
+            self.nodes["b"] = b
+            sb = slot("b_0", "b", 0)
+            sb.f["windows"]["a"] = mk_window("T.b_0.a", self.win)
+            self.slots[f"{pfx}b_0"] = sb
         self.timings = Rec("Timings", dict(slots=self.slots), module=BASE, frozen=True)
         self.sizeA, self.sizeS = z3.Int("a.bufsize"), z3.Int("sup.bufsize")
         ctx.require(self.sizeA >= 1)
@@ -291,6 +298,12 @@ class CompiledWorld:
                                          ts={"a": z3.Real("a.ts"), "sup": z3.Real("sup.ts")}, params={"a": z3.Const("a.params", Leaf), "sup": z3.Const("sup.params", Leaf)},
                                          state={"a": z3.Const("a.state", Leaf), "sup": z3.Const("sup.state", Leaf)}, inputs={"a": prevA, "sup": prevS},
                                          timings_eps=None, buffer=self.buf, aux=aux), module=BASE, frozen=True)
+        if consumer:
+            self.buf["b"] = [Arr.fresh("buffer.b", Leaf, self.sizeA)]
+            for fld, mkv in (("rng", lambda: z3.Const("b.rng", Leaf)), ("seq", lambda: z3.Int("b.seq")), ("ts", lambda: z3.Real("b.ts")),
+                             ("params", lambda: z3.Const("b.params", Leaf)), ("state", lambda: z3.Const("b.state", Leaf)),
+                             ("inputs", lambda: {"a_in": mk_input_state("prev.b.a_in", self.win, dd=dd())})):
+                self.gs.f[fld]["b"] = mkv()
         if extra:
             self.buf[extra] = [Arr.fresh(f"buffer.{extra}", Leaf, self.sizeA)]
             for fld, mk in (("rng", lambda: z3.Const(f"{extra}.rng", Leaf)), ("seq", lambda: z3.Int(f"{extra}.seq")), ("ts", lambda: z3.Real(f"{extra}.ts")),
@@ -393,6 +406,49 @@ def aw_rs(v):
     return dict(params=v, rng=v, inputs=False, state=v, output=v)
 
 
+class SameGenerationReads(Unit):
+    """reads of a generation happen before that generation's writes: a consumer that shares a generation with its producer sees the producer's ring as it was
+    when the generation started (the buffer sizes are computed for exactly this order), whatever the order of the two slots in the generation"""
+    name = "_run_generation (reads before the generation's writes)"
+    target = PR + "::make_run_partition_excl_supervisor"
+    props = ("C08", "C01")
+
+    def configs(self):
+        yield "producer slot first", dict(order=("a_0", "b_0"))
+        yield "consumer slot first", dict(order=("b_0", "a_0"))
+
+    def run(self, ctx):
+        ex, cfg = ctx.ex, ctx.cfg
+        W = CompiledWorld(ctx, False, aw_rs(False), consumer=True)
+        run_S = ctx.call(args=[W.nodes, W.timings, None, "sup_0"])
+        ok = isinstance(run_S, Closure) and "_run_generation" in run_S.env_chain[0]
+        ctx.ensure("factory returns the partition runner", z3.BoolVal(ok))
+        if not ok:
+            return
+        run_gen = run_S.env_chain[0]["_run_generation"]
+        gen = {k: W.slots[k] for k in cfg["order"]}
+        for t in gen.values():
+            ctx.require(0 <= t.f["seq"])
+        buf_a0 = W.buf["a"][0]
+        ret = ex.call(run_gen, [W.gs, gen], {})
+        calls_b = [c for c in W.ctr.calls if c[0] == "b"]
+        tb = W.slots["b_0"]
+        if not calls_b:
+            ctx.ensure("b runs iff its slot is scheduled", z3.Not(tb.f["run"]))
+            return
+        ss = calls_b[0][1]
+        i = ss.f["inputs"].get("a_in")
+        dat = i.f["data"][0] if isinstance(i, Rec) and isinstance(i.f["data"], list) and isinstance(i.f["data"][0], Arr) else None
+        ctx.ensure("b's input window has the buffer's structure", z3.BoolVal(dat is not None))
+        if dat is None:
+            return
+        wv = tb.f["windows"]["a"]
+        j = z3.Int("j!sg")
+        ctx.ensure("C08 a consumer in the same generation as its producer reads the producer's ring as it was at the START of the generation "
+                   "(entry j from slot window.seq[j] mod size of the pre-generation buffer): the generation's own outputs are written afterwards",
+                   z3.ForAll([j], z3.Implies(z3.And(0 <= j, j < wv.f["seq"].n), z3.Select(dat.a, j) == z3.Select(buf_a0.a, PYMOD(z3.Select(wv.f["seq"].a, j), W.sizeA)))))
+
+
 class SkipSlots(Unit):
     """`skip` removes exactly the slots of the named kinds (zero executions for those nodes) and no slot of any other node, whatever the nodes are called"""
     name = "make_run_partition_excl_supervisor (skip list)"
@@ -461,7 +517,7 @@ class RecordInert(Unit):
             ctx.ex.obligations[:] = [o for o in ctx.ex.obligations if o.kind == "ensures"]
 
 
-UNITS += [RunGeneration(), RecordInert(), SkipSlots()]
+UNITS += [RunGeneration(), RecordInert(), SkipSlots(), SameGenerationReads()]
 
 
 # =========================================================================================== _run_S (generation order, C07 / C09 / C13)
